@@ -50,6 +50,7 @@ func VH_C18_sam_commands() {
 	case 6: // invalid symbol in --reference
 		ref = []byte(">ref\nACXTAC\n")
 	}
+	vRaceDetect()
 	vSchedExplore(vParam("DEV"))
 	w := &vCapture{}
 	var err error
